@@ -329,15 +329,31 @@ def restore_roundtrip(cx):
     data = sorted(f["name"] for f in ad["variants"][0]["fields"] if f["name"] not in ("unknown_fields", "cached_size"))
     cx.check(data == sorted(CS_FIELDS), "fields", "ConfState has exactly the five fields the round trip handles: %s" % data)
     tcs = cx.fn("tracker::Configuration::to_conf_state")
-    sts = return_template(cx.prog, tcs, "ConfState")
+    sts = return_template(cx.prog, tcs, "ConfState", 0, True)
     cx.check(bool(sts), "to_conf_state:template", "to_conf_state builds a ConfState in place")
+    SRC = {"voters": "Configuration.incoming", "voters_outgoing": "Configuration.outgoing", "learners": "Configuration.learners", "learners_next": "Configuration.learners_next"}
+    bad_f, bad_src = set(), False
     for st in sts or []:
+        lits = st.get("$lits", ())
         for f in CS_FIELDS:
             v = st.get(f)
-            cx.check(v is not None and v[0] != "default", "to_conf_state:" + f, "to_conf_state fills %s (found %s)" % (f, show(v)[:80] if v else None))
-        ok = contains(fld("Configuration.incoming"), st.get("voters", ("?",))) and contains(fld("Configuration.outgoing"), st.get("voters_outgoing", ("?",))) and \
-            contains(fld("Configuration.learners"), st.get("learners", ("?",))) and contains(fld("Configuration.learners_next"), st.get("learners_next", ("?",))) and is_f(st.get("auto_leave", ("?",)), "Configuration.auto_leave")
-        cx.check(ok, "to_conf_state:sources", "each ConfState field is filled from the corresponding part of the configuration")
+            filled = v is not None and v[0] != "default"
+            if not filled and f in SRC:
+                # a list may be left at its (empty) default exactly when its source set is known to be empty on that path
+                filled = any(l[0] == "is" and l[2] is True and l[1][0] == "call" and l[1][1].endswith("is_empty") and contains(fld(SRC[f]), l[1]) for l in lits)
+            if not filled:
+                bad_f.add((f, show(v)[:80] if v else None))
+        def src_ok(f):
+            v = st.get(f)
+            if v is None or v[0] == "default":
+                return True   # decided above
+            return contains(fld(SRC[f]), v)
+        if not (all(src_ok(f) for f in SRC) and is_f(st.get("auto_leave", ("?",)), "Configuration.auto_leave")):
+            bad_src = True
+    for f in CS_FIELDS:
+        hit = [x for x in bad_f if x[0] == f]
+        cx.check(not hit, "to_conf_state:" + f, "to_conf_state fills %s, or leaves it empty only when its source set is empty (found %s)" % (f, hit[0][1] if hit else "ok"))
+    cx.check(not bad_src, "to_conf_state:sources", "each ConfState field is filled from the corresponding part of the configuration")
     rf = cx.fn("confchange::restore::restore")
     reads = cx.prog.readset_short(strip_generics(rf.key))
     for f in CS_FIELDS:
